@@ -296,13 +296,357 @@ theorem mask_exact_all_histories (v : Variant) (w : Option Int) (maxSeq capacity
   intro c hok
   exact mask_exact c b ids (inv_run _ ops (inv_init v w maxSeq capacity maxBatch cachePad batchPad hs hsz)) hok
 
-/-! ### WrapperCache: a rejected batch is unwound -/
+/-! ### storing a batch commutes with the abstraction -/
 
 /-- the state placement starts from: after window eviction, and after defrag if that was needed -/
 def placeBase (c : Cache) (b : List Tok) : Cache :=
   match findStart (slide { c with curBatch := b } b).cells b.length with
   | some _ => slide { c with curBatch := b } b
   | none => defrag (slide { c with curBatch := b } b)
+
+
+
+/-- **Store commutes with the abstraction.**  Placing a batch into the free block found by
+    `findStartLoc` and `Put`ting its data adds exactly one fresh entry per token (owner = the token's
+    sequence, its position, its data, shift 0) to the abstract state and changes nothing else: no live
+    entry is overwritten, lost or altered. -/
+theorem forward_abs_perm (c2 : Cache) (loc : Nat) (b : List Tok) (ids : List Nat)
+    (hids : ids.length = b.length) (hlen : c2.cells.length = c2.rows.length)
+    (hfit : loc + b.length ≤ c2.cells.length)
+    (hholes : ∀ j, loc ≤ j → j < loc + b.length → (c2.cells.getD j Cell.empty).seqs = []) :
+    (abs (put (finishForward c2 loc b) ids)).Perm (KV.store (abs c2) (b.zip ids)) := by
+  have hp := place_cells { c2 with curLoc := loc, curRange := Range.new } loc b
+  have hc : (put (finishForward c2 loc b) ids).cells = placeCells c2.cells loc b := by
+    simp [put, finishForward, hp.1]
+  have hr : (put (finishForward c2 loc b) ids).rows = putRows c2.rows loc ids := by
+    simp [put, finishForward, hp.2.1, hp.2.2.2.2]
+  have hn : (put (finishForward c2 loc b) ids).cells.length = c2.cells.length := by
+    rw [hc, length_placeCells]
+  have hlen' : (put (finishForward c2 loc b) ids).cells.length = (put (finishForward c2 loc b) ids).rows.length := by
+    rw [hn, hr, putRows_length]; exact hlen
+  have hfitr : loc + ids.length ≤ c2.rows.length := by rw [hids, ← hlen]; exact hfit
+  -- pointwise description of the new state
+  have hout : ∀ j, (j < loc ∨ loc + b.length ≤ j) → entryAt (put (finishForward c2 loc b) ids) j = entryAt c2 j := by
+    intro j hj
+    unfold entryAt
+    rw [hc, hr, (getD_placeCells c2.cells loc b j hfit).1 hj, getD_putRows c2.rows loc ids j hfitr (by rw [hids]; exact hj)]
+  have hin : ∀ k, k < b.length → entryAt (put (finishForward c2 loc b) ids) (loc + k)
+      = some ⟨[(b.getD k default).seq], (b.getD k default).pos, ids.getD k 0, 0⟩ := by
+    intro k hk
+    unfold entryAt
+    rw [hc, hr, getD_placeCells_block c2.cells loc b k hfit hk, getD_putRows_block c2.rows loc ids k hfitr (by rw [hids]; exact hk)]
+    simp [entryOf]
+  have hhole : ∀ j ∈ List.range' loc b.length, entryAt c2 j = none := by
+    intro j hj
+    simp only [List.mem_range'_1] at hj
+    have hh := hholes j hj.1 hj.2
+    unfold entryAt entryOf
+    simp only [hh, if_true]
+  rw [abs_eq_range _ hlen', abs_eq_range _ hlen, hn, range_split3 c2.cells.length loc b.length hfit]
+  simp only [List.filterMap_append]
+  rw [filterMap_block _ _ loc b.length hin, filterMap_all_none _ _ hhole]
+  have hA : (List.range' 0 loc).filterMap (entryAt (put (finishForward c2 loc b) ids))
+      = (List.range' 0 loc).filterMap (entryAt c2) :=
+    filterMap_congr' (fun j hj => hout j (Or.inl (by simp only [List.mem_range'_1] at hj; omega)))
+  have hC : (List.range' (loc + b.length) (c2.cells.length - (loc + b.length))).filterMap (entryAt (put (finishForward c2 loc b) ids))
+      = (List.range' (loc + b.length) (c2.cells.length - (loc + b.length))).filterMap (entryAt c2) :=
+    filterMap_congr' (fun j hj => hout j (Or.inr (by simp only [List.mem_range'_1] at hj; omega)))
+  rw [hA, hC]
+  have hnew : (List.range b.length).map (fun k => (⟨[(b.getD k default).seq], (b.getD k default).pos, ids.getD k 0, 0⟩ : Entry))
+      = (b.zip ids).map (fun t => (⟨[t.1.seq], t.1.pos, t.2, 0⟩ : Entry)) := by
+    apply List.ext_getElem
+    · simp [hids]
+    · intro i h1 h2
+      simp only [List.length_map, List.length_range] at h1
+      have hi2 : i < ids.length := by rw [hids]; exact h1
+      simp [List.getD_eq_getElem?_getD, List.getElem?_eq_getElem h1, List.getElem?_eq_getElem hi2]
+  rw [hnew]
+  simp only [KV.store, List.nil_append]
+  rw [List.append_assoc]
+  exact List.Perm.append_left _ List.perm_append_comm
+
+/-- **StartForward + Put commute with the abstraction**: whenever the batch is accepted, the abstract
+    state afterwards is (a permutation of) the spec's `store` applied to the state placement started
+    from (`placeBase`: after window eviction, and after defrag if it ran). -/
+theorem startForward_put_abs_perm (c : Cache) (b : List Tok) (ids : List Nat) (h : Inv c)
+    (hids : ids.length = b.length) (hok : (startForward c b).2 = .ok) :
+    (abs (put (startForward c b).1 ids)).Perm (KV.store (abs (placeBase c b)) (b.zip ids)) := by
+  have h1 : Inv (slide { c with curBatch := b } b) := slide_inv _ b ⟨h.len, h.cover, h.rmax, h.pad, h.size⟩
+  unfold startForward at hok ⊢
+  unfold placeBase
+  simp only at hok ⊢
+  cases hf : findStart (slide { c with curBatch := b } b).cells b.length with
+  | some loc =>
+    simp only [hf]
+    exact forward_abs_perm _ loc b ids hids h1.len (findStart_fits _ _ _ hf).1 (findStart_holes _ _ _ hf)
+  | none =>
+    simp only [hf] at hok ⊢
+    split at hok
+    · cases hok
+    · rename_i hne
+      simp only [hne, Bool.false_eq_true, if_false]
+      cases hf2 : findStart (defrag (slide { c with curBatch := b } b)).cells b.length with
+      | none => simp [hf2] at hok
+      | some loc =>
+        simp only [hf2]
+        exact forward_abs_perm _ loc b ids hids (inv_defrag _ h1).len (findStart_fits _ _ _ hf2).1
+          (findStart_holes _ _ _ hf2)
+
+/-! ### sliding-window eviction commutes with the abstraction and is invisible to the batch -/
+
+theorem entryAt_slideSeq (c : Cache) (w : Int) (seq : Nat) (low : Int) (h : Inv c) (j : Nat) (hj : j < c.cells.length) :
+    entryAt (slideSeq c w seq low) j = (entryAt c j).bind (evictEntry seq (low - w)) := by
+  have hcell : c.cells.getD j Cell.empty = c.cells[j] := by
+    simp [List.getD_eq_getElem?_getD, List.getElem?_eq_getElem hj]
+  unfold slideSeq
+  cases hr : c.ranges seq with
+  | none =>
+    simp only
+    have hno : seq ∉ c.cells[j].seqs := by
+      intro hs
+      obtain ⟨r, hr', _⟩ := h.cover j hj seq hs
+      rw [hr] at hr'; cases hr'
+    unfold entryAt entryOf
+    rw [hcell]
+    by_cases h0 : c.cells[j].seqs = []
+    · simp [h0]
+    · simp [h0, evictEntry, hno]
+  | some old =>
+    simp only
+    have hc' : (mapFrom (evictCell seq (low - w) old) 0 c.cells).getD j Cell.empty
+        = evictCell seq (low - w) old j c.cells[j] := by
+      have hl : j < (mapFrom (evictCell seq (low - w) old) 0 c.cells).length := by rw [length_mapFrom]; exact hj
+      rw [List.getD_eq_getElem?_getD, List.getElem?_eq_getElem hl, Option.getD_some, getElem_mapFrom _ _ _ j hj]
+      simp
+    unfold entryAt
+    rw [hc', hcell]
+    generalize hx : c.cells[j] = x at *
+    obtain ⟨pos, seqs⟩ := x
+    unfold evictCell entryOf
+    by_cases hs : seq ∈ seqs
+    · obtain ⟨r, hr', hmin, hmax⟩ := h.cover j hj seq (by rw [hx]; exact hs)
+      rw [hr] at hr'; cases hr'
+      have h0 : seqs ≠ [] := by intro he; rw [he] at hs; simp at hs
+      by_cases hlt : pos < low - w
+      · by_cases hd : seqs.filter (· ≠ seq) = []
+        · simp [hs, hmin, hmax, hlt, h0, evictEntry, dropSeq, hd]
+        · simp [hs, hmin, hmax, hlt, h0, evictEntry, dropSeq, hd]
+      · simp [hs, hlt, h0, evictEntry]
+    · by_cases h0 : seqs = []
+      · simp [hs, h0]
+      · simp [hs, h0, evictEntry]
+
+/-- **Window eviction commutes with the abstraction** (one sequence): `updateSlidingWindow` for `seq`
+    is the spec's `evict` of everything of `seq` below `lowest − window`. -/
+theorem slideSeq_abs (c : Cache) (w : Int) (seq : Nat) (low : Int) (h : Inv c) :
+    abs (slideSeq c w seq low) = evict (abs c) seq (low - w) := by
+  have hi := slideSeq_inv c w seq low h
+  have hn : (slideSeq c w seq low).cells.length = c.cells.length := by
+    unfold slideSeq; cases c.ranges seq <;> simp [length_mapFrom]
+  rw [abs_eq_range _ hi.len, abs_eq_range _ h.len, hn, evict, List.filterMap_filterMap]
+  apply filterMap_congr'
+  intro j hj
+  simp only [List.mem_range] at hj
+  exact entryAt_slideSeq c w seq low h j hj
+
+/-- the spec's version of `updateSlidingWindow` for a whole batch -/
+def specSlide (s : Spec) (w : Int) (b : List Tok) : Spec :=
+  (batchSeqs b).foldl (fun s seq => match lowest b seq with
+    | some low => evict s seq (low - w)
+    | none => s) s
+
+theorem slide_abs (c : Cache) (b : List Tok) (h : Inv c) :
+    abs (slide c b) = match c.window with
+      | none => abs c
+      | some w => specSlide (abs c) w b := by
+  unfold slide
+  cases hw : c.window with
+  | none => rfl
+  | some w =>
+    simp only [specSlide]
+    generalize batchSeqs b = seqs
+    induction seqs generalizing c with
+    | nil => rfl
+    | cons seq rest ih =>
+      simp only [List.foldl_cons]
+      cases hl : lowest b seq with
+      | none => exact ih c h hw
+      | some low =>
+        simp only
+        rw [← slideSeq_abs c w seq low h]
+        apply ih _ (slideSeq_inv c w seq low h)
+        unfold slideSeq; cases c.ranges seq <;> simp [hw]
+
+/-- what attention consumes of an entry: position, data identity, applied shift -/
+def key (e : Entry) : Int × Nat × Int := (e.pos, e.id, e.shift)
+
+/-- **Eviction is invisible** to every query whose window starts at or after the eviction threshold
+    (other sequences are never affected). -/
+theorem evict_invisible (s : Spec) (seq : Nat) (thr w : Int) (q : Nat) (p : Int)
+    (hq : q = seq → thr ≤ p - w) :
+    (visible (some w) (evict s seq thr) q p).map key = (visible (some w) s q p).map key := by
+  induction s with
+  | nil => rfl
+  | cons e rest ih =>
+    simp only [evict, visible, List.filterMap_cons] at ih ⊢
+    by_cases hc : seq ∈ e.seqs ∧ e.pos < thr
+    · have hvis_q : q = seq → vis (some w) q p e = false := by
+        intro hqs
+        have := hq hqs
+        have : e.pos < p - w := by omega
+        simp [vis, inWindow, this]
+      by_cases hd : e.seqs.filter (· ≠ seq) = []
+      · -- the entry disappears: it was owned by `seq` only
+        have he : evictEntry seq thr e = none := by
+          unfold evictEntry; rw [if_pos hc]; exact if_pos hd
+        have hv : vis (some w) q p e = false := by
+          by_cases hqs : q = seq
+          · exact hvis_q hqs
+          · have : q ∉ e.seqs := by
+              intro hm
+              have : q ∈ e.seqs.filter (· ≠ seq) := by simp [hm, hqs]
+              rw [hd] at this; simp at this
+            simp [vis, this]
+        rw [he, List.filter_cons_of_neg (by simp [hv])]
+        exact ih
+      · have he : evictEntry seq thr e = some { e with seqs := e.seqs.filter (· ≠ seq) } := by
+          unfold evictEntry; rw [if_pos hc]; exact if_neg hd
+        rw [he]
+        simp only
+        by_cases hqs : q = seq
+        · have hv := hvis_q hqs
+          have hv' : vis (some w) q p { e with seqs := e.seqs.filter (· ≠ seq) } = false := by
+            subst hqs; simp [vis]
+          rw [List.filter_cons_of_neg (by rw [hv']; simp), List.filter_cons_of_neg (by simp [hv])]
+          exact ih
+        · have hv' : vis (some w) q p { e with seqs := e.seqs.filter (· ≠ seq) } = vis (some w) q p e := by
+            simp [vis, hqs]
+          by_cases hv : vis (some w) q p e = true
+          · rw [List.filter_cons_of_pos (by rw [hv']; exact hv), List.filter_cons_of_pos hv]
+            simp only [List.map_cons, ih, key]
+          · rw [List.filter_cons_of_neg (by rw [hv']; exact hv), List.filter_cons_of_neg hv]
+            exact ih
+    · have he : evictEntry seq thr e = some e := by simp [evictEntry, hc]
+      rw [he]
+      simp only
+      by_cases hv : vis (some w) q p e = true
+      · rw [List.filter_cons_of_pos hv, List.filter_cons_of_pos hv]
+        simp only [List.map_cons, ih]
+      · rw [List.filter_cons_of_neg hv, List.filter_cons_of_neg hv]
+        exact ih
+
+theorem lowest_fold_le (seq : Nat) (b : List Tok) (acc : Option Int) :
+    let f := fun (acc : Option Int) (t : Tok) => if t.seq = seq then
+      (match acc with | none => some t.pos | some p => some (if t.pos < p then t.pos else p)) else acc
+    (∀ a, acc = some a → ∃ r, b.foldl f acc = some r ∧ r ≤ a) ∧
+    (∀ t ∈ b, t.seq = seq → ∃ r, b.foldl f acc = some r ∧ r ≤ t.pos) := by
+  intro f
+  induction b generalizing acc with
+  | nil => exact ⟨fun a ha => ⟨a, ha, Int.le_refl a⟩, fun t ht => by simp at ht⟩
+  | cons u us ih =>
+    simp only [List.foldl_cons]
+    constructor
+    · intro a ha
+      subst ha
+      by_cases hu : u.seq = seq
+      · obtain ⟨r, hr, hle⟩ := (ih (f (some a) u)).1 (if u.pos < a then u.pos else a) (by simp [f, hu])
+        exact ⟨r, hr, by split at hle <;> omega⟩
+      · exact (ih (f (some a) u)).1 a (by simp [f, hu])
+    · intro t ht hts
+      rcases List.mem_cons.mp ht with rfl | ht'
+      · cases acc with
+        | none =>
+          obtain ⟨r, hr, hle⟩ := (ih (f none t)).1 t.pos (by simp [f, hts])
+          exact ⟨r, hr, hle⟩
+        | some a =>
+          obtain ⟨r, hr, hle⟩ := (ih (f (some a) t)).1 (if t.pos < a then t.pos else a) (by simp [f, hts])
+          exact ⟨r, hr, by split at hle <;> omega⟩
+      · exact (ih (f acc u)).2 t ht' hts
+
+theorem lowest_le (b : List Tok) (seq : Nat) (low : Int) (h : lowest b seq = some low) :
+    ∀ t ∈ b, t.seq = seq → low ≤ t.pos := by
+  intro t ht hts
+  obtain ⟨r, hr, hle⟩ := (lowest_fold_le seq b none).2 t ht hts
+  have e : lowest b seq = some r := hr
+  rw [h] at e
+  cases e
+  exact hle
+
+/-- the whole `updateSlidingWindow` of a batch is invisible to every token of that batch -/
+theorem specSlide_invisible (s : Spec) (w : Int) (b : List Tok) (t : Tok) (ht : t ∈ b) :
+    (visible (some w) (specSlide s w b) t.seq t.pos).map key = (visible (some w) s t.seq t.pos).map key := by
+  unfold specSlide
+  generalize batchSeqs b = seqs
+  induction seqs generalizing s with
+  | nil => rfl
+  | cons seq rest ih =>
+    simp only [List.foldl_cons]
+    cases hl : lowest b seq with
+    | none => exact ih s
+    | some low =>
+      simp only
+      rw [ih (evict s seq (low - w))]
+      apply evict_invisible
+      intro hq
+      have := lowest_le b seq low hl t ht hq
+      omega
+
+theorem slide_window (c : Cache) (b : List Tok) : (slide c b).window = c.window := by
+  unfold slide
+  cases hw : c.window with
+  | none => exact hw
+  | some w =>
+    simp only
+    generalize batchSeqs b = seqs
+    induction seqs generalizing c with
+    | nil => exact hw
+    | cons seq rest ih =>
+      simp only [List.foldl_cons]
+      cases lowest b seq with
+      | none => exact ih c hw
+      | some low =>
+        apply ih
+        unfold slideSeq; cases c.ranges seq <;> simp [hw]
+
+/-- **End-to-end, one forward pass (placement without defrag).**  For every cache satisfying the
+    invariant and every accepted batch that fits without defragmentation: what each batch token is
+    shown (position, data identity, shift — as a multiset) is exactly what the location-free spec says
+    about the state *before* the pass with the batch stored on top: the entries of the token's sequence
+    at positions ≤ its own, inside the window.  The window eviction the pass performed is invisible. -/
+theorem forward_exposes_stored_history (c : Cache) (b : List Tok) (ids : List Nat) (h : Inv c)
+    (hids : ids.length = b.length) (loc : Nat)
+    (hfit : findStart (slide { c with curBatch := b } b).cells b.length = some loc)
+    (t : Tok) (ht : t ∈ b) :
+    ((exposedEntries (put (startForward c b).1 ids) t).map key).Perm
+      ((visible c.window (KV.store (abs c) (b.zip ids)) t.seq t.pos).map key) := by
+  have hok : (startForward c b).2 = .ok := by unfold startForward; simp [hfit]
+  have hbase : placeBase c b = slide { c with curBatch := b } b := by unfold placeBase; simp [hfit]
+  have hw : (put (startForward c b).1 ids).window = c.window := by
+    unfold startForward
+    simp only [hfit, put, finishForward]
+    rw [(place_window _ _ _), ]
+    exact slide_window { c with curBatch := b } b
+  rw [mask_exact c b ids h hok t ht, hw]
+  have hperm := startForward_put_abs_perm c b ids h hids hok
+  rw [hbase] at hperm
+  have h1 := (hperm.filter (vis c.window t.seq t.pos)).map key
+  refine h1.trans ?_
+  have hs : abs (slide { c with curBatch := b } b) = match c.window with
+      | none => abs c
+      | some w => specSlide (abs c) w b :=
+    slide_abs { c with curBatch := b } b ⟨h.len, h.cover, h.rmax, h.pad, h.size⟩
+  simp only [visible, KV.store, List.filter_append, List.map_append]
+  apply List.Perm.append_right
+  rw [hs]
+  cases c.window with
+  | none => exact List.Perm.refl _
+  | some w =>
+    simp only
+    have := specSlide_invisible (abs c) w b t ht
+    simp only [visible] at this
+    rw [this]
+
+/-! ### WrapperCache: a rejected batch is unwound -/
 
 /-- the batch continues its sequences: no owned cell of a batch token's sequence at or after it -/
 def NoLater (cells : List Cell) (b : List Tok) : Prop :=
@@ -495,6 +839,92 @@ theorem wrapper_mask_exact (cs : List Cache) (b : List Tok) (ids : List Nat) (cs
   simp only [wPut, List.map_map, List.mem_map, Function.comp] at hc'
   obtain ⟨c, hc, rfl⟩ := hc'
   exact mask_exact c b ids (hinv c hc) (e2 c hc) t ht
+
+/-! ### EncoderCache -/
+
+/-- specification state of the encoder cache: the position of the encoder output that was stored by a
+    real (non-reserve) pass and has not been removed since -/
+structure EncSpec where
+  curPos : Int := 0
+  reserve : Bool := false
+  stored : Option Int := none
+
+def encSpecStep (g : EncSpec) : EOp → EncSpec
+  | .start p r => { g with curPos := p.getD g.curPos, reserve := r }
+  | .put _ _ => if g.reserve then g else { g with stored := some g.curPos }
+  | .remove b e =>
+    match g.stored with
+    | some p => if b ≤ p ∧ p < e then { g with stored := none } else g
+    | none => g
+
+def EncRel (s : Enc) (g : EncSpec) : Prop :=
+  s.curPos = g.curPos ∧ s.curReserve = g.reserve ∧ s.cached = g.stored.isSome ∧ ∀ p, g.stored = some p → s.encPos = p
+
+theorem encRel_step (s : Enc) (g : EncSpec) (op : EOp) (h : EncRel s g) : EncRel (encStep s op) (encSpecStep g op) := by
+  obtain ⟨h1, h2, h3, h4⟩ := h
+  cases op with
+  | start p r => exact ⟨by simp [encStep, encSpecStep, h1], by simp [encStep, encSpecStep], h3, h4⟩
+  | put l id =>
+    cases hr : g.reserve with
+    | true =>
+      have hsr : s.curReserve = true := by rw [h2, hr]
+      refine ⟨?_, ?_, ?_, ?_⟩
+      · simp [encStep, encSpecStep, hsr, hr, Enc.setLayer, h1]
+      · simp [encStep, encSpecStep, hsr, hr, Enc.setLayer]
+      · simp [encStep, encSpecStep, hsr, hr, Enc.setLayer, h3]
+      · intro p hp
+        simp only [encSpecStep, hr, if_true] at hp
+        simpa [encStep, hsr, Enc.setLayer] using h4 p hp
+    | false =>
+      have hsr : s.curReserve = false := by rw [h2, hr]
+      refine ⟨?_, ?_, ?_, ?_⟩
+      · simp [encStep, encSpecStep, hsr, hr, Enc.setLayer, h1]
+      · simp [encStep, encSpecStep, hsr, hr, Enc.setLayer]
+      · simp [encStep, encSpecStep, hsr, hr, Enc.setLayer]
+      · intro p hp
+        simp only [encSpecStep, hr, Bool.false_eq_true, if_false, Option.some.injEq] at hp
+        simp [encStep, hsr, Enc.setLayer, h1, hp]
+  | remove b e =>
+    cases hs : g.stored with
+    | none =>
+      have hc : s.cached = false := by simpa [hs] using h3
+      refine ⟨?_, ?_, ?_, ?_⟩
+      · simp only [encStep]; split <;> simp [encSpecStep, hs, h1]
+      · simp only [encStep]; split <;> simp [encSpecStep, hs, h2]
+      · simp only [encStep]; split <;> simp [encSpecStep, hs, hc]
+      · intro p hp; simp [encSpecStep, hs] at hp
+    | some p =>
+      have hp := h4 p hs
+      have hc : s.cached = true := by simpa [hs] using h3
+      by_cases hcov : b ≤ p ∧ p < e
+      · refine ⟨?_, ?_, ?_, ?_⟩
+        · simp [encStep, encSpecStep, hs, hp, hcov, h1]
+        · simp [encStep, encSpecStep, hs, hp, hcov, h2]
+        · simp [encStep, encSpecStep, hs, hp, hcov]
+        · intro q hq; simp [encSpecStep, hs, hcov] at hq
+      · refine ⟨?_, ?_, ?_, ?_⟩
+        · simp [encStep, encSpecStep, hs, hp, hcov, h1]
+        · simp [encStep, encSpecStep, hs, hp, hcov, h2]
+        · simp [encStep, encSpecStep, hs, hp, hcov, hc]
+        · intro q hq
+          simp only [encSpecStep, hs, hcov, if_false] at hq
+          cases hq
+          simp [encStep, hp, hcov]
+
+/-- **EncoderCache never offers a removed input's encoder output as cached**: along every history,
+    `EncoderCached()` is true exactly when an encoder output was stored by a non-reserve pass and no
+    `Remove` has covered its position since, and `encoderPos` is that position. -/
+theorem encoder_cached_exact (ops : List EOp) :
+    let s := ops.foldl encStep {}
+    let g := ops.foldl encSpecStep {}
+    s.cached = g.stored.isSome ∧ ∀ p, g.stored = some p → s.encPos = p := by
+  have : ∀ (ops : List EOp) (s : Enc) (g : EncSpec), EncRel s g → EncRel (ops.foldl encStep s) (ops.foldl encSpecStep g) := by
+    intro ops
+    induction ops with
+    | nil => intro s g h; exact h
+    | cons op rest ih => intro s g h; exact ih _ _ (encRel_step s g op h)
+  have h := this ops {} {} ⟨rfl, rfl, rfl, by intro p hp; simp at hp⟩
+  exact ⟨h.2.2.1, h.2.2.2⟩
 
 /-! ### Witnesses of the defects the model shares with the code -/
 
